@@ -187,11 +187,15 @@ func (e *Engine) callFunc(fr *frame, ins ssa.Instruction, fn *ssa.Function, args
 	switch baseName {
 	case "old":
 		if fn.Pkg != nil && strings.HasPrefix(fn.Pkg.Pkg.Path(), repoModule) || fn.Origin() != nil && fn.Origin().Pkg != nil && strings.HasPrefix(fn.Origin().Pkg.Pkg.Path(), repoModule) {
-			return e.evalOld(fr, cc.Args[0]), reach
+			return e.evalOld(fr, cc.Args[0], heap), reach
 		}
 	case "forall", "exists":
 		if fn.Pkg != nil && strings.HasPrefix(fn.Pkg.Pkg.Path(), repoModule) {
 			return e.quantifier(fr, fn.Name(), args, heap), reach
+		}
+	case "forallKeys":
+		if fn.Origin() != nil && fn.Origin().Pkg != nil && strings.HasPrefix(fn.Origin().Pkg.Pkg.Path(), repoModule) {
+			return e.keyQuantifier(fr, cc, args, heap), reach
 		}
 	case "vcIter":
 		return e.iterValue(fr, ins), reach
@@ -506,7 +510,7 @@ func (e *Engine) evalPred(pf *ssa.Function, args []Val, heap Heap, old Heap) str
 
 // evalOld re-evaluates the pure expression tree that computes v in the entry
 // heap of the function under verification.
-func (e *Engine) evalOld(fr *frame, v ssa.Value) Val {
+func (e *Engine) evalOld(fr *frame, v ssa.Value, curHeap Heap) Val {
 	if e.oldHeap == nil {
 		fail("old() used outside a postcondition")
 	}
@@ -520,10 +524,19 @@ func (e *Engine) evalOld(fr *frame, v ssa.Value) Val {
 		switch x := v.(type) {
 		case *ssa.Parameter, *ssa.Const, *ssa.Function, *ssa.Global, *ssa.FreeVar:
 			r = e.operand(fr, v)
+		case *ssa.Alloc:
+			// a variable cell of the predicate function itself (captured by a closure)
+			r = e.operand(fr, v)
 		case *ssa.UnOp:
 			if x.Op.String() == "*" {
 				pv := e.asPtr(ev(x.X), x.X.Type())
-				r = e.load(e.oldHeap, pv, x.Type())
+				h := e.oldHeap
+				switch x.X.(type) {
+				case *ssa.Alloc, *ssa.FreeVar:
+					// predicate-local variable cells are not program state: read them now
+					h = curHeap
+				}
+				r = e.load(h, pv, x.Type())
 			} else {
 				sub := &frame{fn: fr.fn, vals: map[ssa.Value]Val{x.X: ev(x.X)}}
 				r = e.unop(sub, x, "true", e.oldHeap)
@@ -612,6 +625,31 @@ func (e *Engine) quantifier(fr *frame, kind string, args []Val, heap Heap) Val {
 		t = fmt.Sprintf("(exists ((%s %s)) %s)", k, SI64, and(rng, body))
 	}
 	return Sc{e.sc.define("q", SBool, t), SBool}
+}
+
+// keyQuantifier: forallKeys(m, p) - p holds for every key present in map m.
+func (e *Engine) keyQuantifier(fr *frame, cc *ssa.CallCommon, args []Val, heap Heap) Val {
+	mt, ok := under(cc.Args[0].Type()).(*types.Map)
+	if !ok {
+		fail("forallKeys needs a map")
+	}
+	fv, ok := args[1].(FuncVal)
+	if !ok {
+		fail("forallKeys needs a function literal")
+	}
+	ks := mapKeySort(mt)
+	m := e.scalar(args[0]).T
+	mc := e.mapComponents(mt)
+	k := e.sc.freshName("kk")
+	e.sc.binders = append(e.sc.binders, binder{k, ks})
+	savePure := e.pure
+	e.pure = true
+	res := e.execFunction(fv.Fn, []Val{Sc{k, ks}}, fv.Bind, "true", heap.clone())
+	e.pure = savePure
+	body := e.scalar(res.ret).T
+	e.sc.binders = e.sc.binders[:len(e.sc.binders)-1]
+	present := and(not(eq(m, bvLit(0, 32))), sel(sel(e.heapGet(heap, mc.present), m), k))
+	return Sc{e.sc.define("qk", SBool, fmt.Sprintf("(forall ((%s %s)) %s)", k, ks, implies(present, body))), SBool}
 }
 
 func (e *Engine) invoke(fr *frame, ins ssa.Instruction, cc *ssa.CallCommon, recv Val, args []Val, resT types.Type, reach string, heap Heap) (Val, string) {
@@ -725,7 +763,7 @@ func (e *Engine) builtin(fr *frame, ins ssa.Instruction, b *ssa.Builtin, cc *ssa
 			t := cc.Args[0].Type()
 			if isStringT(t) {
 				l := e.sc.define("slen", SI64, app("gs_len", x.T))
-				e.sc.assume(app("bvsge", l, bvLit(0, 64)))
+				e.sc.assume(and(app("bvsge", l, bvLit(0, 64)), app("bvslt", l, bvLit(1<<40, 64))))
 				return Sc{l, SI64}
 			}
 			if mt, ok := under(t).(*types.Map); ok {
@@ -1044,6 +1082,14 @@ func (e *Engine) cannotInline1(fn *ssa.Function, path map[*ssa.Function]bool) st
 			}
 			if f == nil || len(f.Blocks) == 0 || !e.inlinable(f) {
 				continue
+			}
+			bn := f.Name()
+			if f.Origin() != nil {
+				bn = f.Origin().Name()
+			}
+			switch bn {
+			case "forall", "exists", "forallKeys", "old", "implies", "vcSame":
+				continue // ghost intrinsics: interpreted by the engine, their Go bodies serve the replay only
 			}
 			if c := e.w.contractFor(f); c != nil && len(c.byKind("ensures")) > 0 {
 				continue
